@@ -163,8 +163,8 @@ P("C17", ["SCALER", "UNITS", "SF4", "SCALEPOS", "SCALEUSE", "OWN", "SFREAD", "FI
   "only write of the factor outside the class; (UNITS) raw/scaled unit typing: target tested on the unscaled "
   "value, ftol test compares like units, results and line search get scaled values; (SF4) scale applied inside "
   "the accessors.", "equality of two complete runs (relation between trajectories)", design="3/C17")
-P("C18", ["SIB", "ESC", "MEM", "DIAG", "RETRY", "UNITS", "RESTARTX", "SFREAD", "SF4"],
-  "(SFREAD) the gradient stored next to an iterate was evaluated there: nobody but the wrapper marks its memo as valid; (SF4) stored gradients are private arrays; (RESTARTX) after a restart the first new pair is a difference of gradients the user returned at the two retained iterates: the start point is exactly checkpoint.x; (UNITS) the gradients stored in the history are all scaled by the same factor, so their differences are differences of the user's gradients; (RETRY) after a failed search the retained point and gradient are the newest stored ones; (SIB) every LbfgsInvHessProduct is built from (diff(X), diff(G)) in that order (or the checkpoint's pairs with "
+P("C18", ["SIB", "ESC", "MEM", "DIAG", "RETRY", "UNITS", "RESTARTX", "SFREAD", "SF4", "RTEXACT"],
+  "(RTEXACT) the pairs a restarted run inherits are carried, not re-derived: a decoder that rebuilds the retained points by subtraction makes the re-differenced pairs equal to the checkpoint's only up to rounding; (SFREAD) the gradient stored next to an iterate was evaluated there: nobody but the wrapper marks its memo as valid; (SF4) stored gradients are private arrays; (RESTARTX) after a restart the first new pair is a difference of gradients the user returned at the two retained iterates: the start point is exactly checkpoint.x; (UNITS) the gradients stored in the history are all scaled by the same factor, so their differences are differences of the user's gradients; (RETRY) after a failed search the retained point and gradient are the newest stored ones; (SIB) every LbfgsInvHessProduct is built from (diff(X), diff(G)) in that order (or the checkpoint's pairs with "
   "one slice); (ESC) stored points / gradients are private and never written afterwards, so pairs are bit-exact "
   "differences of visited points; (MEM) <= maxcor pairs each with s.y > eps*y.y >= 0; (DIAG) the diagonal utility "
   "probes e_i, reads and writes index i, over range(n), with a fresh probe per iteration.",
